@@ -17,7 +17,7 @@ def run(rep, tier):
     rep.extra["behaviours"] = kinds
     rep.evaluations += sum(len(e["outs"]) for e in events)
     rep.distinct += len(events)
-    rep.rule = ("%d behaviours enumerated by TLC (Gen_Fhe: 10 word operations x boundary dictionary pairs {0, 1, 2^31, 2^32-1, alternating, single bits, shift amounts 31..63, ...}; partial "
+    rep.rule = ("%d behaviours enumerated by TLC (Gen_Fhe: 10 word operations x boundary dictionary pairs {0, 1, 2^31, 2^32-1, alternating, single bits, shift amounts 31..63, ...}; bit surgery on packed words (sext, zero_byte, splice_u8, splice_u16, get_bit) decided against the bit-level definition; partial "
                 "preparation over (start, count); chains op -> re-prepare (circuit bootstrapping) -> op; FFT64Ref and FFT64Avx) executed on the library's own key material (N=256, rank 2, "
                 "block-binary LWE key); the decrypted words are decided bit for bit by TLC against WordOps.tla (the specification C13 proves the compiled circuits against); distinct = behaviours"
                 % len(events))
